@@ -4,8 +4,6 @@ import (
 	"fmt"
 	"net/url"
 	"os"
-	"os/exec"
-	"path/filepath"
 	"strings"
 	"time"
 
@@ -15,42 +13,6 @@ import (
 
 func init() {
 	vh.Register("C06", runC06)
-	vh.Register("C06DEEP", runC06Deep)
-}
-
-// runC06Deep is the crash-isolated child: a fatal stack overflow cannot be
-// recovered, so documents nested deeper than 10^5 are decoded in a process of
-// their own. -n is the nesting depth; the outcome goes to <out>/deep.txt.
-func runC06Deep(cfg *vh.Config) error {
-	targets, err := loadTargets()
-	if err != nil {
-		return err
-	}
-	var nested, full *target
-	for _, t := range targets {
-		switch t.Name {
-		case "env_nested":
-			nested = t
-		case "env_full":
-			full = t
-		}
-	}
-	d := cfg.N
-	var sb strings.Builder
-	for _, c := range []struct {
-		name string
-		t    *target
-		doc  string
-	}{
-		{"recursive type", nested, strings.Repeat(`{"type":{"de3":`, d) + `{}` + strings.Repeat(`}}`, d)},
-		{"recursive type in array", full, `{"nestedExposedOneofs":[` + strings.Repeat(`{"type":{"de3":`, d) + `{}` + strings.Repeat(`}}`, d) + `]}`},
-		{"array nesting", full, `{"rString":` + strings.Repeat(`[`, d) + strings.Repeat(`]`, d) + `}`},
-		{"any value", full, `{"j5any":{"!type":"x","value":` + strings.Repeat(`[`, d) + strings.Repeat(`]`, d) + `}}`},
-	} {
-		o := decodeJSON(c.t, []byte(c.doc))
-		fmt.Fprintf(&sb, "%s\t%s\t%s\t%s\n", c.name, o.Kind, o.Elapsed, o.Panic)
-	}
-	return os.WriteFile(filepath.Join(cfg.Out, "deep.txt"), []byte(sb.String()), 0o644)
 }
 
 // inputClass names the generator that produced an input; part of failure signatures.
@@ -72,6 +34,11 @@ func runC06(cfg *vh.Config) error {
 	fmt.Fprintf(os.Stderr, "c06 loadTargets %s\n", time.Since(tStart))
 	em := &emitter{cf: &vh.CasesFile{Header: envHeader(targets), Type: "deccase", Check: "dec_check"}, res: res, perShd: 250}
 	distinct := vh.Distinct{}
+	// the schema conditions of the theorems, once per environment
+	for _, t := range targets {
+		em.add("CEnv "+t.Name, "environment", map[string]any{"target": t.Env.Root}, map[string]any{"env": t.Name})
+		em.caseNo++
+	}
 	r := cfg.R
 	full := targets[0]
 	byName := map[string]*target{}
@@ -230,6 +197,37 @@ func runC06(cfg *vh.Config) error {
 		add("deep nesting inside any value", full, `{"j5any":{"!type":"x","value":`+strings.Repeat(`{"a":`, d)+`null`+strings.Repeat(`}`, d)+`}}`, model)
 	}
 	add("deep nesting inside any value", full, `{"j5any":{"!type":"x","value":`+strings.Repeat(`[`, 10001)+strings.Repeat(`]`, 10001)+`}}`, false)
+	// recursion through a repeated and through a map message field (Wide.children / Wide.kids), and depths far
+	// beyond the nesting bound: a fatal stack overflow is only visible because the call runs in the worker process
+	wide := byName["env_wide"]
+	thorough := cfg.Tier == "thorough"
+	for _, d := range append(append([]int{}, depths...), 400000, 1000000) {
+		model := d <= 100
+		big := d > 100000
+		// beyond the nesting bound every one of these is an error whose path has 10^4 levels: seconds each
+		// (see the unclosed documents above), so the quick tier runs three of them
+		if d <= 1000 || (big && thorough) {
+			add("deep nesting through a repeated field, unclosed", wide, strings.Repeat(`{"children":[`, d), model)
+			add("deep nesting through a map field, unclosed", wide, strings.Repeat(`{"kids":{"k":`, d), model)
+		}
+		if d <= 1000 || thorough {
+			add("deep nesting through a repeated field", wide, strings.Repeat(`{"children":[`, d)+`{}`+strings.Repeat(`]}`, d), model)
+			add("deep nesting through a map field", wide, strings.Repeat(`{"kids":{"k":`, d)+`{}`+strings.Repeat(`}}`, d), model)
+		}
+		if big && thorough {
+			add("deep nesting on recursive type", nested, strings.Repeat(`{"type":{"de3":`, d)+`{}`+strings.Repeat(`}}`, d), false)
+			add("deep nesting on recursive type", full, `{"nestedExposedOneofs":[`+strings.Repeat(`{"type":{"de3":`, d)+`{}`+strings.Repeat(`}}`, d)+`]}`, false)
+			add("deep array nesting", full, `{"rString":`+strings.Repeat(`[`, d)+strings.Repeat(`]`, d)+`}`, false)
+			add("deep nesting inside any value", full, `{"j5any":{"!type":"x","value":`+strings.Repeat(`[`, d)+strings.Repeat(`]`, d)+`}}`, false)
+		}
+	}
+	if !thorough {
+		add("deep nesting through a repeated field, unclosed", wide, strings.Repeat(`{"children":[`, 400000), false)
+		add("deep nesting through a map field", wide, strings.Repeat(`{"kids":{"k":`, 400000)+`{}`+strings.Repeat(`}}`, 400000), false)
+		add("deep nesting on recursive type", nested, strings.Repeat(`{"type":{"de3":`, 1000000)+`{}`+strings.Repeat(`}}`, 1000000), false)
+		add("deep array nesting", full, `{"rString":`+strings.Repeat(`[`, 1000000)+strings.Repeat(`]`, 1000000)+`}`, false)
+		add("deep nesting inside any value", full, `{"j5any":{"!type":"x","value":`+strings.Repeat(`[`, 1000000)+strings.Repeat(`]`, 1000000)+`}}`, false)
+	}
 	add("long string", full, `{"sString":"`+strings.Repeat("a", 100000)+`"}`, false)
 	add("long array", full, `{"rString":[`+strings.Repeat(`"a",`, 20000)+`"a"]}`, false)
 	add("many duplicate keys", full, `{`+strings.Repeat(`"sString":null,`, 20000)+`"sString":"x"}`, false)
@@ -240,6 +238,10 @@ func runC06(cfg *vh.Config) error {
 	// ---- run
 	timings := map[string]time.Duration{}
 	for _, in := range inputs {
+		if tripped() {
+			res.Count("json: not run (the run stopped after calls that did not return)")
+			continue
+		}
 		o := decodeJSON(in.t, in.doc)
 		key := in.t.Name + "\x00" + string(in.doc)
 		distinct.Add(key)
@@ -252,8 +254,8 @@ func runC06(cfg *vh.Config) error {
 		switch o.Kind {
 		case "panic":
 			res.Fail(vh.Failure{Case: em.caseNo, Stream: "json", Sig: fmt.Sprintf("C06 JSONToProto panics in %s: %s", o.Site, panicClass(o.Panic)), Clause: "decoding never panics", Input: input, Got: o.Panic})
-		case "timeout":
-			res.Fail(vh.Failure{Case: em.caseNo, Stream: "json", Sig: "C06 JSONToProto does not return within the deadline", Clause: "decoding returns in time bounded by the input size", Input: input, Got: "no result after " + callDeadline.String()})
+		case "timeout", "fatal", "memory":
+			res.Fail(hardFailure("C06", "JSONToProto", em.caseNo, "json", input, o))
 		default:
 			// time bounded by input size: generous linear budget
 			budget := 2*time.Second + time.Duration(len(in.doc))*50*time.Microsecond
@@ -261,7 +263,7 @@ func runC06(cfg *vh.Config) error {
 				res.Fail(vh.Failure{Case: em.caseNo, Stream: "json", Sig: "C06 JSONToProto time not linear in input size", Clause: "decoding returns in time bounded by the input size", Input: input, Got: o.Elapsed.String()})
 			}
 		}
-		if in.model && o.Kind != "timeout" && len(in.doc) < 6000 {
+		if in.model && o.usable() && len(in.doc) < 6000 {
 			em.add(decCase(in.t, in.doc, o), "json", input, map[string]any{"kind": o.Kind, "err": o.Err, "panic": o.Panic})
 		}
 		if o.Kind == "ok" && len(in.doc) > 20 {
@@ -274,42 +276,6 @@ func runC06(cfg *vh.Config) error {
 	res.Notes = append(res.Notes, fmt.Sprintf("stage: json run %s", time.Since(t0)))
 	for k, v := range timings {
 		res.Notes = append(res.Notes, fmt.Sprintf("max wall time, %s: %s", k, v))
-	}
-
-	// ---- nesting beyond 10^5 in a child process (a fatal stack overflow kills the process, recover() cannot see it)
-	for _, d := range []int{1000000} {
-		dir := filepath.Join(cfg.Out, fmt.Sprintf("deep-%d", d))
-		os.MkdirAll(dir, 0o755)
-		cmd := exec.Command(os.Args[0], "-prop", "C06DEEP", "-n", fmt.Sprint(d), "-out", dir)
-		start := time.Now()
-		outb, err := cmd.CombinedOutput()
-		res.Count("json:deep nesting in a child process")
-		input := map[string]any{"class": "nesting depth in a child process", "depth": d, "documents": "recursive type NestedExposed, recursive type inside an array, array brackets, any value"}
-		body, _ := os.ReadFile(filepath.Join(dir, "deep.txt"))
-		if err != nil {
-			msg := string(outb)
-			if i := strings.Index(msg, "fatal error"); i >= 0 {
-				msg = msg[i:]
-			}
-			if len(msg) > 300 {
-				msg = msg[:300]
-			}
-			cls := "child process died"
-			if strings.Contains(string(outb), "stack overflow") {
-				cls = "fatal stack overflow"
-			}
-			res.Fail(vh.Failure{Case: em.caseNo, Stream: "json", Sig: "C06 JSONToProto kills the process on a deeply nested document: " + cls, Clause: "never recurses without bound / exhausts the stack", Input: input, Got: msg})
-		} else {
-			for _, line := range strings.Split(strings.TrimSpace(string(body)), "\n") {
-				f := strings.Split(line, "\t")
-				if len(f) >= 2 && (f[1] == "panic" || f[1] == "timeout") {
-					res.Fail(vh.Failure{Case: em.caseNo, Stream: "json", Sig: "C06 JSONToProto " + f[1] + " on a deeply nested document (" + f[0] + ")", Clause: "decoding never panics / returns in bounded time", Input: input, Got: line})
-				}
-			}
-			res.Notes = append(res.Notes, fmt.Sprintf("nesting depth %d in a child process (%s): %s", d, time.Since(start).Round(time.Millisecond), strings.ReplaceAll(strings.TrimSpace(string(body)), "\n", "; ")))
-		}
-		os.RemoveAll(dir)
-		em.caseNo++
 	}
 
 	// ---- lexer stream: the tokenizer model against encoding/json on the same documents
@@ -330,6 +296,10 @@ func runC06(cfg *vh.Config) error {
 	for i := 0; i < nQuery; i++ {
 		t := vh.Pick(r, targets)
 		q := genQuery(r, t)
+		if tripped() {
+			res.Count("query: not run (the run stopped after calls that did not return)")
+			continue
+		}
 		o := decodeQuery(t, q)
 		distinct.Add("q:" + t.Name + fmt.Sprintf("%q", map[string][]string(q)))
 		res.Count("query")
@@ -338,13 +308,13 @@ func runC06(cfg *vh.Config) error {
 		switch o.Kind {
 		case "panic":
 			res.Fail(vh.Failure{Case: em.caseNo, Stream: "query", Sig: fmt.Sprintf("C06 QueryToProto panics in %s: %s", o.Site, panicClass(o.Panic)), Clause: "query decoding never panics", Input: input, Got: o.Panic})
-		case "timeout":
-			res.Fail(vh.Failure{Case: em.caseNo, Stream: "query", Sig: "C06 QueryToProto does not return within the deadline", Clause: "query decoding returns in bounded time", Input: input, Got: "timeout"})
+		case "timeout", "fatal", "memory":
+			res.Fail(hardFailure("C06", "QueryToProto", em.caseNo, "query", input, o))
 		}
 		if o.Kind == "ok" {
 			res.Sample(map[string]any{"stream": "query", "query": q.Encode(), "outcome": "ok"}, 10)
 		}
-		if len(q) <= 4 && o.Kind != "timeout" && (cfg.Tier == "quick" || i%8 == 0) {
+		if len(q) <= 4 && o.usable() && (cfg.Tier == "quick" || i%8 == 0) {
 			em.add(queryCase(t, q, o), "query", input, map[string]any{"kind": o.Kind, "err": o.Err, "panic": o.Panic})
 		}
 		em.caseNo++
@@ -361,6 +331,9 @@ func runC06(cfg *vh.Config) error {
 			}
 			for _, vals := range [][]string{{""}, {"", "x"}, {"x", ""}, {" "}, {"1e60000000"}, {"0e-2000000000"}, {"null"}, {"\x00"}} {
 				q := url.Values{p.JSON: vals}
+				if tripped() {
+					continue
+				}
 				o := decodeQuery(t, q)
 				res.Count("query")
 				res.Count("query-outcome:" + o.Kind)
@@ -368,14 +341,14 @@ func runC06(cfg *vh.Config) error {
 				switch o.Kind {
 				case "panic":
 					res.Fail(vh.Failure{Case: em.caseNo, Stream: "query", Sig: fmt.Sprintf("C06 QueryToProto panics in %s: %s", o.Site, panicClass(o.Panic)), Clause: "query decoding never panics", Input: input, Got: o.Panic})
-				case "timeout":
-					res.Fail(vh.Failure{Case: em.caseNo, Stream: "query", Sig: "C06 QueryToProto does not return within the deadline", Clause: "query decoding returns in bounded time", Input: input, Got: "timeout"})
+				case "timeout", "fatal", "memory":
+					res.Fail(hardFailure("C06", "QueryToProto", em.caseNo, "query", input, o))
 				default:
 					if o.Elapsed > 2*time.Second {
 						res.Fail(vh.Failure{Case: em.caseNo, Stream: "query", Sig: "C06 QueryToProto time not linear in input size", Clause: "query decoding returns in time bounded by the input size", Input: input, Got: o.Elapsed.String()})
 					}
 				}
-				if o.Kind != "timeout" && r.Chance(25) {
+				if o.usable() && r.Chance(25) {
 					em.add(queryCase(t, q, o), "query", input, map[string]any{"kind": o.Kind, "err": o.Err, "panic": o.Panic})
 				}
 				em.caseNo++
@@ -383,6 +356,10 @@ func runC06(cfg *vh.Config) error {
 		}
 	}
 	res.Notes = append(res.Notes, fmt.Sprintf("stage: after query %s", time.Since(t0)))
+	if tripped() {
+		res.Notes = append(res.Notes, fmt.Sprintf("the run stopped issuing calls after %d calls that did not return (killed worker processes); the remaining inputs were not executed", maxHard))
+	}
+	shutdownWorker()
 	res.Evaluations = em.caseNo
 	res.Distinct = len(distinct) - 1
 	err = em.finish(cfg)
